@@ -399,7 +399,7 @@ func scenFecStream(r *Run) {
 	pool := NewPoolSan()
 	kcp.VerifPoolGet, kcp.VerifPoolPut = pool.Get, pool.Put
 	prop := r.Spec.Prop
-	if prop != "C16" {
+	if prop != "C16" && prop != "C12" {
 		prop = "C07"
 	}
 	mismatch := r.Spec.Stratum == "mismatch" || r.Spec.Stratum == "mismatch-small" || r.Spec.Stratum == "mismatch-targeted"
@@ -422,7 +422,11 @@ func scenFecStream(r *Run) {
 	n1 := uint32(d1 + p1)
 	paws := uint32(0xffffffff) / n1 * n1
 	var start uint32
-	switch t.Choose(cs, 4) {
+	startKind := t.Choose(cs, 4)
+	if r.Spec.Stratum == "wrap" {
+		startKind = 2 + t.Choose(cs, 2) // C12: always around the wrap value or 2^31
+	}
+	switch startKind {
 	case 1:
 		start = n1 * uint32(t.Choose(cs, 1<<20))
 	case 2:
